@@ -6,6 +6,8 @@ import (
 	"context"
 	"fmt"
 	"io"
+	"net"
+	"net/http"
 	"net/http/httptrace"
 	"strconv"
 	"strings"
@@ -20,11 +22,56 @@ import (
 // shape that decides whether readLoop gives the connection back; what httptrace and the caller
 // observe (which connection, reused or not, PutIdleConn before/after the response, EOF) is
 // compared with the per-connection pairing model (Req/Pool/Pairing.lean).
+// Round 7: the WRITE side of a connection has its own clock.  c09LagConn reports a Write as done a
+// little after the bytes left (a TLS layer, a proxy hop, a busy scheduler), so a response can be
+// processed by readLoop before writeLoop has filed its report in writeErrCh; c09HeldBody is an
+// upload whose tail does not arrive before the lane lets it (the server answers such an upload
+// early and keeps the connection: kinds UE / UB).  What decides about the connection is the report
+// of THIS request's write, whenever it arrives.
+type c09LagConn struct {
+	net.Conn
+	lag time.Duration
+}
+
+func (c *c09LagConn) Write(p []byte) (int, error) {
+	n, err := c.Conn.Write(p)
+	time.Sleep(c.lag)
+	return n, err
+}
+
+type c09HeldBody struct {
+	first   []byte
+	rest    []byte
+	release chan struct{}
+	once    sync.Once
+}
+
+func (b *c09HeldBody) Read(p []byte) (int, error) {
+	if len(b.first) > 0 {
+		n := copy(p, b.first)
+		b.first = b.first[n:]
+		return n, nil
+	}
+	<-b.release
+	if len(b.rest) == 0 {
+		return 0, io.EOF
+	}
+	n := copy(p, b.rest)
+	b.rest = b.rest[n:]
+	return n, nil
+}
+
+func (b *c09HeldBody) Close() error { b.let(); return nil }
+func (b *c09HeldBody) let()         { b.once.Do(func() { close(b.release) }) }
+
 func TestVerif_C09_pair(t *testing.T) {
 	s := verifh.New(t, "C09", "pair",
-		"sequences of 3..14 sequential requests of kinds NB (no body) / E1, EX (POST with Expect: 100-continue answered by 100 Continue + 200, or by a final 403/404/500 without 100 on a kept-alive connection; the origin checks that the promised body arrives) / B (Content-Length body read to EOF) / CH (chunked) / HD (HEAD) / BX (caller closes the body early) / BK (Connection: close) / NBK (no body + close) / BI (CloseIdleConnections before the body is drained) / NBU, BU (like NB, B but the origin writes unsolicited bytes behind the complete response — a duplicate of it, a response nobody asked for, garbage, half a status line; at once or 3 ms later — and the caller lets the read loop see them: the connection must be dropped, the next request gets its own response on a new one) against a raw HTTP/1.1 origin; observed per request: connection sequence number, GotConn.Reused, order of PutIdleConn(nil|err) / response returned / EOF; plus tag echo; non-trivial = at least one reuse and one non-reuse in the sequence")
+		"sequences of 3..14 sequential requests of kinds NB (no body) / E1, EX (POST with Expect: 100-continue answered by 100 Continue + 200, or by a final 403/404/500 without 100 on a kept-alive connection; the origin checks that the promised body arrives) / B (Content-Length body read to EOF) / CH (chunked) / HD (HEAD) / BX (caller closes the body early) / BK (Connection: close) / NBK (no body + close) / BI (CloseIdleConnections before the body is drained) / NBU, BU (like NB, B but the origin writes unsolicited bytes behind the complete response — a duplicate of it, a response nobody asked for, garbage, half a status line; at once or 3 ms later — and the caller lets the read loop see them: the connection must be dropped, the next request gets its own response on a new one) / UE, UB (round 7: POST whose body tail is held back by the caller, answered at once by a final 401/413 without / with a body on a kept-alive connection: the upload is still being written when readLoop decides, the connection must not go back to the pool) / WL (marker: every Write of this sequence's connections reports 1..3 ms late, so body-less requests are answered before writeLoop has reported) against a raw HTTP/1.1 origin; observed per request: connection sequence number, GotConn.Reused, order of PutIdleConn(nil|err) / response returned / EOF; plus tag echo; non-trivial = at least one reuse and one non-reuse in the sequence")
 	r := s.Rand()
-	kinds := []string{"NB", "B", "B", "CH", "HD", "BX", "BK", "NBK", "BI", "E1", "EX", "NBU", "BU"}
+	kinds := []string{"NB", "B", "B", "CH", "HD", "BX", "BK", "NBK", "BI", "E1", "EX", "NBU", "BU", "UE"}
+	// sequences on connections with a late-reporting writer: the kinds whose outcome does not
+	// depend on write timing, body-less ones and early-answered uploads more often
+	lagKinds := []string{"NB", "NB", "NB", "HD", "B", "CH", "UE", "UB", "NBK"}
 	n := verifh.N(150, 2500)
 	nBad := 0
 	wedged := false
@@ -38,6 +85,19 @@ func TestVerif_C09_pair(t *testing.T) {
 		cl.SetLogger(nil)
 		tr := cl.GetTransport()
 		tr.Proxy = nil
+		lag := 0
+		if cs%4 == 1 {
+			lag = 1 + r.Intn(3)
+			lagD := time.Duration(lag) * time.Millisecond
+			cl.SetDial(func(ctx context.Context, network, addr string) (net.Conn, error) {
+				var d net.Dialer
+				c, err := d.DialContext(ctx, network, addr)
+				if err != nil {
+					return nil, err
+				}
+				return &c09LagConn{Conn: c, lag: lagD}, nil
+			})
+		}
 		var mu sync.Mutex
 		connSeq := map[string]int{}
 		var evs []string
@@ -46,8 +106,15 @@ func TestVerif_C09_pair(t *testing.T) {
 		var seq []string
 		var impl []string
 		ok := true
+		if lag > 0 {
+			seq = append(seq, "WL")
+			s.Count("write-lag-sequence")
+		}
 		for i := 0; i < k && ok; i++ {
 			kind := verifh.Pick(r, kinds)
+			if lag > 0 {
+				kind = verifh.Pick(r, lagKinds)
+			}
 			seq = append(seq, kind)
 			mu.Lock()
 			evs = nil
@@ -89,6 +156,10 @@ func TestVerif_C09_pair(t *testing.T) {
 				pl.size, pl.expect, pl.status = verifh.Pick(r, []int{1, 300}), 2, verifh.Pick(r, []int{403, 404, 500})
 			case "NBU":
 				pl.extra, pl.extraDelay = 1+r.Intn(4), verifh.Pick(r, []int{0, 3})
+			case "UE":
+				pl.expect, pl.status = 2, verifh.Pick(r, []int{401, 413})
+			case "UB":
+				pl.size, pl.expect, pl.status = verifh.Pick(r, []int{1, 300}), 2, verifh.Pick(r, []int{401, 413})
 			case "BU":
 				pl.size, pl.chunked = verifh.Pick(r, []int{1, 300, 9000}), r.Intn(3) == 0
 				pl.extra, pl.extraDelay = 1+r.Intn(4), verifh.Pick(r, []int{0, 3})
@@ -109,9 +180,25 @@ func TestVerif_C09_pair(t *testing.T) {
 			}
 			reqSize := verifh.Pick(r, []int{1, 200, 2000})
 			resCh := make(chan result, 1)
+			var held *c09HeldBody
+			if kind == "UE" || kind == "UB" {
+				up := c09Pattern(tag, 200+reqSize, "q")
+				held = &c09HeldBody{first: up[:100], rest: up[100:], release: make(chan struct{})}
+			}
 			go func() {
 				var rs result
-				if kind == "HD" {
+				if held != nil {
+					// straight through the transport: a streamed upload of known length
+					hr, _ := http.NewRequestWithContext(httptrace.WithClientTrace(context.Background(), trace), "POST", "http://"+o.addr()+"/p", held)
+					hr.ContentLength = int64(len(held.first) + len(held.rest))
+					hr.Header.Set("X-Tag", strconv.Itoa(tag))
+					hr.Header.Set("X-Plan", pl.String())
+					var hresp *http.Response
+					hresp, rs.err = tr.RoundTrip(hr)
+					if rs.err == nil {
+						rs.resp = &Response{Response: hresp}
+					}
+				} else if kind == "HD" {
 					rs.resp, rs.err = rq.Head("http://" + o.addr() + "/p")
 				} else if kind == "E1" || kind == "EX" {
 					rs.resp, rs.err = rq.SetHeader("Expect", "100-continue").
@@ -146,7 +233,7 @@ func TestVerif_C09_pair(t *testing.T) {
 				io.ReadFull(resp.Body, buf)
 				resp.Body.Close()
 				add("C")
-			case "NB", "HD", "NBK", "NBU":
+			case "NB", "HD", "NBK", "NBU", "UE":
 				io.Copy(io.Discard, resp.Body)
 				resp.Body.Close()
 			default:
@@ -157,6 +244,13 @@ func TestVerif_C09_pair(t *testing.T) {
 				add("E")
 				resp.Body.Close()
 				if string(b) != string(c09Pattern(tag, pl.size, "r")) {
+					ok = false
+				}
+			}
+			if held != nil {
+				// only now may the rest of the upload go out (if its connection is still there)
+				held.let()
+				if resp.StatusCode != pl.status {
 					ok = false
 				}
 			}
